@@ -133,10 +133,39 @@ def enum_runtime(ctx):
         yield {"mode": "check", "v": s}
     for s in ["1.0.0", "0.0.1", "99.99.99", "2.4.0-rc1"]:
         yield {"mode": "require", "v": s}
+    # several checks in one process: every call is decided on its own argument
+    good = ["%d.%d.0" % (have[0], have[1]), "%d.0.9" % have[0]]
+    bad = ["%d.%d.0" % (have[0], have[1] + 1), "%d.%d.0" % (have[0] + 1, have[1]), "%d.0.0" % max(0, have[0] - 1) if have[0] else "7.0.0",
+           "1.2", "", "a.b.c", "-1.0.0", "@NULL"]
+    for g in good:
+        for b_ in bad:
+            yield {"mode": "checkseq", "vs": [g, b_]}
+            yield {"mode": "checkseq", "vs": [g, good[0], b_]}
+    yield {"mode": "checkseq", "vs": good + good}
 
 
 def run_runtime(case, ctx):
     have = libversion(ctx)
+    if case["mode"] == "checkseq":
+        d = ctx.newdir()
+        try:
+            r = tools.run([ctx.shared["vercheck"], "checkseq"] + case["vs"], cwd=d)
+        finally:
+            ctx.rmdir(d)
+        nret = r.out.count(b"returned")
+        exp = 0
+        for v in case["vs"]:
+            w = R.parse_version(v) if v != "@NULL" else None
+            if w is None or not compat(w, have):
+                break
+            exp += 1
+        if nret != exp:
+            raise Violation("checks %s in one process (library %s): %d calls returned, %d are compatible before the first that must be refused" % (case["vs"], have, nret, exp))
+        if exp < len(case["vs"]) and not (r.kind == "signal" and r.sig == 6 and r.err.strip()):
+            raise Violation("checks %s in one process: the incompatible one did not abort with a diagnostic: %s" % (case["vs"], r.brief()))
+        if exp == len(case["vs"]) and r.kind != "ok":
+            raise Violation("checks %s in one process: %s" % (case["vs"], r.brief()))
+        return {"nt": True, "cls": ["runtime:check-sequence"]}
     d = ctx.newdir()
     try:
         r = tools.run([ctx.shared["vercheck"], case["mode"], case["v"]], cwd=d, env={"OVNI_TRACEDIR": os.path.join(d, "ovni")})
@@ -197,6 +226,13 @@ def enum_emu(ctx):
         for bad in bads:
             for vers in ([good, bad], [bad, good], [good, older, bad], [older, bad, good], [good, good, good], [older, good]):
                 yield {"mode": "multi", "model": name, "versions": vers}
+    # streams with different requirement sets: a model is enabled when SOME stream requires it,
+    # whichever it is in the emulator's thread order
+    for m in sorted(PROBE):
+        for n in (2, 3):
+            for pos in range(n):
+                yield {"mode": "spread", "model": m, "n": n, "pos": pos, "other": None}
+                yield {"mode": "spread", "model": m, "n": n, "pos": pos, "other": sorted(PROBE)[(sorted(PROBE).index(m) + 1) % len(PROBE)]}
     others = sorted(PROBE)
     for mask in range(1 << len(others)):
         sub = [m for i, m in enumerate(others) if mask >> i & 1]
@@ -263,6 +299,34 @@ def run_emu(case, ctx):
         if r.ok != allok:
             raise Violation("streams requiring %s versions %s (emulator has %s): trace %s" % (name, case["versions"], have, "accepted" if r.ok else "rejected"))
         return {"nt": True, "cls": ["emu:multi-stream"]}
+    if case["mode"] == "spread":
+        m, n, pos, other = case["model"], case["n"], case["pos"], case["other"]
+        streams = []
+        for i in range(n):
+            req = {"ovni": "%d.%d.%d" % adv["ovni"][1]}
+            evs = [T.OHx(100 + i, -1)]
+            if i == pos:
+                req[R.MODEL_NAMES[m]] = "%d.%d.%d" % adv[R.MODEL_NAMES[m]][1]
+                evs += [T.plain(PROBE[m], 110 + i), T.plain(PROBE_END[m], 120 + i)]
+            elif other is not None:
+                req[R.MODEL_NAMES[other]] = "%d.%d.%d" % adv[R.MODEL_NAMES[other]][1]
+                evs += [T.plain(PROBE[other], 110 + i), T.plain(PROBE_END[other], 120 + i)]
+            evs.append(T.plain("OHe", 200 + i))
+            st_ = {"loom": "n.0", "pid": 1, "tid": [999, 1000, 1001][i] if n == 3 else [9, 10][i], "app": 1, "require": req, "events": evs}
+            if i == 0:
+                st_["cpus"] = [[0, 0]]
+            streams.append(st_)
+        for flags in ((), ("-l",)):
+            d = ctx.newdir()
+            try:
+                T.write_trace({"streams": streams}, d)
+                r = tools.emu(b, d, flags)
+            finally:
+                ctx.rmdir(d)
+            if not r.ok:
+                raise Violation("model %s is required by stream %d of %d (the others require %s): its events are rejected: %s" % (
+                    m, pos, n, other or "only ovni", r.brief()))
+        return {"nt": True, "cls": ["emu:requirements-spread-over-streams"]}
     sub = case["models"]
     req = {"ovni": "%d.%d.%d" % adv["ovni"][1]}
     for m in sub:
